@@ -556,6 +556,7 @@ class C13(core.Check):
         "ints), micro (the lattice with 0.05..0.2 mm cells), rejected (link candidates whose follower is no grid point "
         "are refused, the error is caught, then optimize), "
         "grow (two or three optimize() calls on one optimizer, another clamp - sometimes leading a translation link - added before each later call; judged per call), "
+        "foreign (the clamp function raises RuntimeError in a chosen evaluation of a chosen optimize_clamp call: propagates before backport), "
         "nearideal (millimetre-sized sketches with only the clamped vertices 1e-5..9e-5 of a cell off: negative summed quality), "
         "boundary (0 iterations, no clamps, auto_optimize; 0 iterations with the report on), defaults (optimize() without "
         "arguments), driver (no optimiser run: a real IterationDriver fed with begin / end_iteration calls - limits -1..20, "
@@ -588,8 +589,9 @@ class C13(core.Check):
         "initial state is T_C13_noworse_general. Round 6: the driver / reporter model (IterationDriver, ClampOptimizationData, "
         "summary block) is over Q, the implementation computes in floats (compared to 1e-9 relative, the printed summary to 4 "
         "digits); T_C13_tie_statements is a textual snapshot of the control methods (trip-wire), the other T_C13_tie_* are "
-        "semantic; additions between two optimize() calls are covered by T_C13_frame_phases / T_C13_noworse_phases with 'every phase is "
-        "entered in a rest state' as hypothesis; exceptions other than ValueError inside the minimiser are not modelled."
+        "semantic; additions between two optimize() calls: T_C13_noworse_add_clamp for a clamp on an unmoved vertex, T_C13_noworse_phases "
+        "with 'every phase is entered in a rest state' as hypothesis otherwise; an exception other than ValueError is modelled "
+        "when raised in an evaluation of optimize_clamp (T_C13_abort_*), not inside a sensitivity probe or a restoring update."
     )
 
     # ------------------------------------------------------------------ generators
